@@ -85,12 +85,7 @@ func (r Rect[T]) Contains(in Rect[T]) bool {
 	if r.Empty() || in.Empty() {
 		return false
 	}
-	right := r.Right()
-	bottom := r.Bottom()
-	inRight := in.Right() - 1
-	inBottom := in.Bottom() - 1
-	return r.X <= in.X && r.Y <= in.Y && in.X < right && in.Y < bottom && r.X <= inRight &&
-		r.Y <= inBottom && inRight < right && inBottom < bottom
+	return r.X <= in.X && r.Y <= in.Y && in.Right() <= r.Right() && in.Bottom() <= r.Bottom()
 }
 
 // IntersectsLine returns true if this rect and the line described by start and end intersect.
